@@ -120,20 +120,29 @@ def r1(ctx):
     # the guard itself
     ef = P.func(MAT + "._evaluate_factor")
     from ..util import guards_of
-    raises = [n for n in ast.walk(ef.node) if isinstance(n, ast.Raise) and n.exc is not None and "FactorEncodingError" in norm(n.exc)
-              and any("encoder_state" in c for c, _ in guards_of(P, n))]
-    ctx.floor("C09.R1", len(raises), 1, "kind guards")
-    g = raises[0]
     from ..util import single_assignment_env
     env1 = {k: v for k, v in single_assignment_env(ef.node).items()}
 
     def unfold(text):
         e = sym.subst(ast.parse(text, mode="eval").body, env1)
         return norm(e)
+    # the raise guarded by a test on the recorded encoder state (the recorded kind may be looked up into a local first)
+    raises = [n for n in ast.walk(ef.node) if isinstance(n, ast.Raise) and n.exc is not None and "FactorEncodingError" in norm(n.exc)
+              and any("encoder_state" in unfold(c) for c, _ in guards_of(P, n))]
+    ctx.floor("C09.R1", len(raises), 1, "kind guards")
+    g = raises[0]
     gs = [(unfold(c), pol) for c, pol in guards_of(P, g)]
     gs = [(c, pol) for c, pol in gs if "encoder_state" in c]
     want = {("factor.expr in spec.encoder_state", True), ("value.__formulaic_metadata__.kind is spec.encoder_state[factor.expr][0]", False)}
     ok = set(gs) == want
+    if not ok and len(gs) == 2:
+        # the other spelling: K = spec.encoder_state.get(factor.expr, <default>)[0];  K is not None and kind is not K
+        ks = [sym.pm("ANY_k is None", ast.parse(c, mode="eval").body) for c, pol in gs if not pol]
+        ks = [b_["ANY_k"] for b_ in ks if b_ is not None]
+        for K in ks:
+            if sym.pm("spec.encoder_state.get(factor.expr, ANY_d)[0]", ast.parse(K, mode="eval").body) is not None and \
+                    set(gs) == {(f"{K} is None", False), (f"value.__formulaic_metadata__.kind is {K}", False)}:
+                ok = True
     ctx.check(ok, "C09.R1", "the kind guard compares the evaluated kind with the recorded one and raises FactorEncodingError", ef.module.line(g),
               ctx.construct(ef, text="kind guard"), f"guard conditions are {gs}")
     # the guard precedes caching, and the recorded kind is what _encode_evaled_factor stores
@@ -151,6 +160,34 @@ def r1(ctx):
     ok = len(rec) == 1 and norm(rec[0].value) == "(factor.metadata.kind, encoder_state)"
     ctx.check(ok, "C09.R1", "the recorded encoder state is (kind, state) keyed by the factor expression", en.where, ctx.construct(en, text="record kind"),
               f"records `{norm(rec[0].value) if rec else None}`")
+    # … and the encoders are handed THAT state object (what they record in it is what the spec keeps): not a copy of it
+    stname = None
+    if rec and isinstance(rec[0].value, ast.Tuple) and len(rec[0].value.elts) == 2 and isinstance(rec[0].value.elts[1], ast.Name):
+        stname = rec[0].value.elts[1].id
+    from .shared import dict_mapper
+    try:
+        mapper = dict_mapper(P)[0]
+    except AnalysisError:
+        mapper = None
+    enc_calls = [c for c in ast.walk(en.node) if isinstance(c, ast.Call) and (norm(c.func) == "factor.metadata.encoder" or (
+        mapper is not None and isinstance(c.func, ast.Call) and norm(c.func.func) == mapper))]
+    ctx.floor("C09.R1", len(enc_calls), 3, "encoder invocations in _encode_evaled_factor")
+    for c in enc_calls:
+        ctx.look()
+        given = [a for a in list(c.args) + [k.value for k in c.keywords if k.arg in (None, "encoder_state", "state", "_state")]]
+        # `*shared` tuples of arguments are looked through
+        from ..util import single_assignment_env
+        env_ = single_assignment_env(en.node)
+        flat_ = []
+        for a in given:
+            if isinstance(a, ast.Starred) and isinstance(a.value, ast.Name) and isinstance(env_.get(a.value.id), (ast.Tuple, ast.List)):
+                flat_ += list(env_[a.value.id].elts)
+            else:
+                flat_.append(a)
+        ok_ = stname is not None and any(isinstance(a, ast.Name) and a.id == stname for a in flat_)
+        ctx.check(ok_, "C09.R1", f"{norm(c.func)[:50]} records into the state object that the spec keeps", en.module.line(c), ctx.construct(en, text=f"state handed to {norm(c.func)[:40]}"),
+                  f"the encoder is not handed `{stname}` itself (a copy such as dict({stname}) is thrown away): the levels / contrasts it records never reach "
+                  f"spec.encoder_state, so a spec reused on data with fewer levels re-infers them")
     encoder_state_recorded_on_every_path(ctx, "C09.R1")
     ok = any(sym.pm("VAR_s = spec.encoder_state.get(factor.expr, [None, {}])[1]", n) is not None
              or sym.pm("VAR_s: ANY_t = spec.encoder_state.get(factor.expr, [None, {}])[1]", n) is not None for n in ast.walk(en.node))
